@@ -53,9 +53,18 @@ func iavlEarlyClose(seed int64, rounds int) {
 		} else {
 			it = st.Iterator([]byte("k"), []byte("l"))
 		}
-		for n := rnd.Intn(3); n > 0 && it.Valid(); n-- {
-			_ = it.Key()
-			it.Next()
+		if rnd.Intn(3) == 0 {
+			// module code also writes to the store while it iterates over it (clearMissedArray, the award and burn
+			// queues, maturity): the iterator is a snapshot, one item ahead of its consumer
+			for ; it.Valid(); it.Next() {
+				st.Delete(it.Key())
+				st.Set(append([]byte("z"), it.Key()...), []byte("x"))
+			}
+		} else {
+			for n := rnd.Intn(3); n > 0 && it.Valid(); n-- {
+				_ = it.Key()
+				it.Next()
+			}
 		}
 		it.Close()
 		for i := 0; i < 10; i++ {
